@@ -102,7 +102,38 @@ THandles ==
                        two_writers |-> second # {}, lost |-> [i \in 1..Len(e.acked) |-> e.acked[i]]]))
   /\ l' = l + 1
 
-Next == TSnap \/ TIncr \/ THandles
+(***************************************************************************)
+(* backup (C29): writer operations ran in the gaps of a backup (before the *)
+(* page-file copy, between the copies, after the log copy).  states[k] are *)
+(* the quiescent dumps at the start of the backup and after every writer   *)
+(* operation.  A completed backup must restore to a database that opens    *)
+(* and equals one of them.                                                 *)
+(***************************************************************************)
+SameDump(a, b) == \A i \in Interfaces : SeqSet(a[i]) = SeqSet(b[i])
+TBackup ==
+  /\ l <= Len(Rec) /\ Rec[l].ev = "backup"
+  /\ LET e == Rec[l]
+         ops == [i \in 1..Len(e.steps) |-> e.steps[i][2]]
+         (* a compaction / checkpoint (or a close, which rewrites the log) ran after the page file was copied and *)
+         (* before the log was copied                                                                              *)
+         cpBetween == \E i \in 1..Len(e.steps) : e.steps[i][1] = "main" /\ e.steps[i][3] = "backup.between_copies"
+                                                   /\ e.steps[i][2] \in {"compact", "checkpoint", "close-reopen"}
+     IN IF e.backup # "ok" THEN TRUE          \* only completed backups are promised to restore
+        ELSE IF e.restore # "ok" THEN
+          Emit([prop |-> "C29", at |-> l, id |-> e.id, kind |-> "restore-failed", err |-> e.restore, steps |-> ops])
+        ELSE IF e.open # "ok" THEN
+          Emit([prop |-> "C29", at |-> l, id |-> e.id, kind |-> "restored-database-does-not-open", err |-> e.open, steps |-> ops,
+                checkpoint_between_copies |-> cpBetween])
+        ELSE IF Len(e.d.errs) > 0 THEN
+          Emit([prop |-> "C29", at |-> l, id |-> e.id, kind |-> "restored-database-read-error", err |-> e.d.errs, steps |-> ops])
+        ELSE IF \E k \in 1..Len(e.states) : SameDump(e.d, e.states[k]) THEN TRUE
+        ELSE Emit([prop |-> "C29", at |-> l, id |-> e.id, kind |-> "restored-state-is-no-committed-state", steps |-> ops,
+                   checkpoint_between_copies |-> cpBetween,
+                   differs_from_start |-> SetToSeq({i \in Interfaces : SeqSet(e.d[i]) # SeqSet(e.states[1][i])}),
+                   differs_from_end |-> SetToSeq({i \in Interfaces : SeqSet(e.d[i]) # SeqSet(e.states[Len(e.states)][i])})])
+  /\ l' = l + 1
+
+Next == TSnap \/ TIncr \/ THandles \/ TBackup
 Spec == Init /\ [][Next]_l
 TraceAccepted ==
   LET d == TLCGet("stats").diameter IN
